@@ -204,6 +204,12 @@ def gen_points(r, h, n, special=True):
         pts += [[1.0, 1.0], [nx, ny], [1.0, ny], [nx, 1.0], [(nx + 1) / 2, (ny + 1) / 2]]
         if in_image(h, h["crpix1"], h["crpix2"]):
             pts.append([h["crpix1"], h["crpix2"]])
+        # pixels on the row / column through the reference pixel: for an unrotated CD matrix they lie on the
+        # meridian RA = CRVAL1 (exactly on the RA = 0 seam for the seam families) or on the parallel's tangent
+        for d in (1.0, -37.25, 300.5):
+            for q in ((h["crpix1"], h["crpix2"] + d), (h["crpix1"] + d, h["crpix2"])):
+                if in_image(h, q[0], q[1]) and len(pts) < n + 4:
+                    pts.append([q[0], q[1]])
         pp = ref_pole_pixel(h)
         if pp is not None:
             for dx, dy in ((0.3, 0.2), (-2.0, 3.0), (0.01, 0.0), (5.0, -7.0), (-0.4, -0.1), (40.0, -30.0)):
@@ -228,3 +234,44 @@ def gen_history(r, h, nmax=12):
         else:
             ops.append({"op": kind, "arr": npt > 0, "pts": pts, "distort": r.random() < 0.7})
     return ops
+
+
+def poly_eval(m, x, y):
+    """sum m[i][j] x^i y^j (plain floats / numpy arrays)"""
+    tot = 0.0 * x
+    for i, row in enumerate(m):
+        for j, a in enumerate(row):
+            if a != 0.0:
+                tot = tot + a * x ** i * y ** j
+    return tot
+
+
+def fit_rms(h, name, ap, bp, ngrid=24):
+    """rms (pixels) over a grid on the image of: fitted inverse polynomial (ap, bp as the object holds them)
+    applied to the convention's forward distortion, minus the identity.  Independent of the code's inverse
+    chain; used only as the yardstick "fitted-polynomial accuracy" of the find=False round trip."""
+    import numpy as np
+    xs = np.linspace(1.0, float(h["naxis1"]), ngrid)
+    ys = np.linspace(1.0, float(h["naxis2"]), ngrid)
+    X, Y = np.meshgrid(xs, ys)
+    X, Y = X.ravel(), Y.ravel()
+    u, v = X - h["crpix1"], Y - h["crpix2"]
+    if name == "sip":
+        oa, ob = h["a_order"], h["b_order"]
+        f = sum(h.get("a_%d_%d" % (p, q), 0.0) * u ** p * v ** q for p in range(oa + 1) for q in range(oa + 1 - p))
+        gg = sum(h.get("b_%d_%d" % (p, q), 0.0) * u ** p * v ** q for p in range(ob + 1) for q in range(ob + 1 - p))
+        U, V = u + f, v + gg
+        ub = U + poly_eval(ap, U, V)
+        vb = V + poly_eval(bp, U, V)
+        err2 = (ub - u) ** 2 + (vb - v) ** 2
+    else:
+        a = h["cd1_1"] * u + h["cd1_2"] * v
+        b = h["cd2_1"] * u + h["cd2_2"] * v
+        xi, eta = ref_intermediate(h, X, Y)
+        da = poly_eval(ap, xi, eta) - a
+        db = poly_eval(bp, xi, eta) - b
+        det = h["cd1_1"] * h["cd2_2"] - h["cd1_2"] * h["cd2_1"]
+        dx = (h["cd2_2"] * da - h["cd1_2"] * db) / det
+        dy = (-h["cd2_1"] * da + h["cd1_1"] * db) / det
+        err2 = dx ** 2 + dy ** 2
+    return float(np.sqrt(err2.mean()))
